@@ -587,10 +587,9 @@ func (k *kase) genStep(i int) *step {
 	case 2:
 		st.unscoped = r.Bool()
 	}
-	if st.op == "Count" || st.op == "Find" {
-		st.unscoped = false
-	}
-	if st.unscoped && s.soft {
+	reads := st.op == "Count" || st.op == "Find"
+	if st.unscoped && s.soft && !reads {
+		// (Count / Find through db.Unscoped() read soft-deleted rows on purpose: not generated)
 		st.hard = r.Chance(1, 3)
 	}
 	switch k.mode {
@@ -742,14 +741,18 @@ func (k *kase) assoc(recv interface{}, st *step) *gorm.Association {
 	return a
 }
 
+// readUnscoped: Count / Find through db.Model(v).Association(f).Unscoped()
+var readUnscoped = &step{unscoped: true}
+
 type problem struct {
 	what string
 	msg  string
+	unsc bool // a Count / Find issued through Association(..).Unscoped()
 }
 
-func (k *kase) findKeys(recv interface{}) ([]string, error) {
+func (k *kase) findKeys(recv interface{}, st *step) ([]string, error) {
 	out := reflect.New(reflect.SliceOf(k.spec.targetT))
-	if err := k.assoc(recv, nil).Find(out.Interface()); err != nil {
+	if err := k.assoc(recv, st).Find(out.Interface()); err != nil {
 		return nil, err
 	}
 	var keys []string
@@ -807,7 +810,7 @@ func (k *kase) exec(st *step) (err error, count int64, found []string) {
 		count = a.Count()
 		err = a.Error
 	case "Find":
-		found, err = k.findKeys(recv)
+		found, err = k.findKeys(recv, st)
 	}
 	return
 }
@@ -816,7 +819,7 @@ func (k *kase) exec(st *step) (err error, count int64, found []string) {
 func (k *kase) checkState(st *step, eff *effect) []problem {
 	s, m := k.spec, k.m
 	var ps []problem
-	add := func(what, f string, a ...interface{}) { ps = append(ps, problem{what, fmt.Sprintf(f, a...)}) }
+	add := func(what, f string, a ...interface{}) { ps = append(ps, problem{what: what, msg: fmt.Sprintf(f, a...)}) }
 	// stored links of every owner row (operated owners, bystanders, decoy owner type)
 	db := s.readLinks()
 	owners := map[string]bool{}
@@ -892,21 +895,28 @@ func (k *kase) checkState(st *step, eff *effect) []problem {
 		for _, via := range []struct {
 			name string
 			recv interface{}
-		}{{ov.lit, ov.ptr.Interface()}, {"a fresh " + s.ownerLit(ov.ok), fresh.Interface()}} {
-			a := k.assoc(via.recv, nil)
+			how  *step
+		}{{ov.lit, ov.ptr.Interface(), nil}, {"a fresh " + s.ownerLit(ov.ok), fresh.Interface(), nil},
+			{ov.lit + " with Association(..).Unscoped()", ov.ptr.Interface(), readUnscoped}, {"a fresh " + s.ownerLit(ov.ok) + " with Association(..).Unscoped()", fresh.Interface(), readUnscoped}} {
+			a := k.assoc(via.recv, via.how)
 			n := a.Count()
 			if a.Error != nil {
 				add("error", "Count through %s: %v", via.name, a.Error)
 			} else if n != int64(len(want)) {
 				add("count", "Count through %s = %d, links of %s are %v", via.name, n, ov.ok, want)
+				ps[len(ps)-1].unsc = via.how != nil
 			}
-			got, err := k.findKeys(via.recv)
+			got, err := k.findKeys(via.recv, via.how)
 			if err != nil {
 				add("error", "Find through %s: %v", via.name, err)
 			} else if !eqStrs(got, want) {
 				add("find", "Find through %s returned %v, links of %s are %v", via.name, got, ov.ok, want)
+				ps[len(ps)-1].unsc = via.how != nil
 			}
 			k.c.Add("count_find_comparisons", 2)
+			if via.how != nil {
+				k.c.Add("count_find_comparisons_through_unscoped_handle", 2)
+			}
 		}
 		if !ov.foreign {
 			got := distinct(s.memKeys(ov.ptr.Elem()))
@@ -943,7 +953,11 @@ func (k *kase) run() {
 	}
 	// the seeded state itself must read back as the model
 	if ps := k.checkState(nil, nil); len(ps) > 0 {
-		fail("seed-readback", nil, ps)
+		if onlyUnscopedReads(ps) {
+			fail("count-find-through-unscoped-handle-differs:"+s.name+":seeded-state", nil, ps)
+		} else {
+			fail("seed-readback", nil, ps)
+		}
 		return
 	}
 	nSteps := k.r.Range(3, 8)
@@ -970,7 +984,7 @@ func (k *kase) run() {
 		err, count, found := k.exec(st)
 		var ps []problem
 		if err != nil {
-			ps = append(ps, problem{"error", fmt.Sprintf("call returned error: %v", err)})
+			ps = append(ps, problem{what: "error", msg: fmt.Sprintf("call returned error: %v", err)})
 		}
 		// keys of brand-new records
 		ok := true
@@ -979,7 +993,7 @@ func (k *kase) run() {
 			if t.key == "" {
 				ids := s.idsByName(t.name)
 				if len(ids) != 1 {
-					ps = append(ps, problem{"records", fmt.Sprintf("brand-new record %q is stored %d times (keys %v), want once", t.name, len(ids), ids)})
+					ps = append(ps, problem{what: "records", msg: fmt.Sprintf("brand-new record %q is stored %d times (keys %v), want once", t.name, len(ids), ids)})
 					ok = false
 					continue
 				}
@@ -1060,12 +1074,12 @@ func (k *kase) run() {
 			}
 			if st.op == "Count" {
 				if count < int64(len(set)) || count > int64(links) {
-					ps = append(ps, problem{"count", fmt.Sprintf("Count() = %d, the owners hold %d links to %d distinct records", count, links, len(set))})
+					ps = append(ps, problem{"count", fmt.Sprintf("Count() = %d, the owners hold %d links to %d distinct records", count, links, len(set)), st.unscoped})
 				}
 			} else if got := distinct(found); !eqStrs(got, sortedKeys(set)) {
-				ps = append(ps, problem{"find", fmt.Sprintf("Find returned records %v, linked records are %v", got, sortedKeys(set))})
+				ps = append(ps, problem{"find", fmt.Sprintf("Find returned records %v, linked records are %v", got, sortedKeys(set)), st.unscoped})
 			} else if !st.sliceLvl && len(found) != len(set) {
-				ps = append(ps, problem{"find", fmt.Sprintf("Find returned %v (duplicates), linked records are %v", found, sortedKeys(set))})
+				ps = append(ps, problem{"find", fmt.Sprintf("Find returned %v (duplicates), linked records are %v", found, sortedKeys(set)), st.unscoped})
 			}
 		}
 		ps = append(ps, k.checkState(st, eff)...)
@@ -1131,6 +1145,16 @@ func intSet(m map[string]int) map[string]bool {
 		out[k] = true
 	}
 	return out
+}
+
+// onlyUnscopedReads: every disagreement is a Count / Find issued through Association(..).Unscoped().
+func onlyUnscopedReads(ps []problem) bool {
+	for _, p := range ps {
+		if !p.unsc {
+			return false
+		}
+	}
+	return len(ps) > 0
 }
 
 type snapshot struct {
@@ -1321,6 +1345,11 @@ func (k *kase) sig(st *step, ps []problem, sn *snapshot, applied bool) string {
 		if collide(tks) || collide(oks) {
 			return "composite-key-collision"
 		}
+	}
+	if onlyUnscopedReads(ps) {
+		// stored links, records, the in-memory field and Count / Find through scoped handles all
+		// agree with the model; only Count / Find through Association(..).Unscoped() differ
+		return "count-find-through-unscoped-handle-differs:" + s.name + ":after-" + st.op
 	}
 	parts := []string{ps[0].what, s.name, st.op}
 	if st.unscoped {
